@@ -1215,3 +1215,15 @@ M('C20', 'sub-weighting of a product space drops the exponent', 'odl/space/pspac
 M('C06', 'PointwiseNorm derivative loses the explicit weighting', 'odl/operator/tensor_ops.py',
   "        return PointwiseInner(self.domain, inner_vf, weighting=self.weights)",
   "        return PointwiseInner(self.domain, inner_vf)", 'PointwiseNorm.derivative')
+M('C19', 'cone beam detector axes rotated by the transpose', 'odl/tomo/geometry/conebeam.py',
+  """        axes = self.rotation_matrix(angle).dot(self.det_axes_init.T)
+        # `axes` has shape (a, 3, 2), need to roll the last dimensions
+        # to the second-to-last place
+        return np.rollaxis(axes, -1, -2)""",
+  """        return np.matmul(self.det_axes_init, self.rotation_matrix(angle))""",
+  'ConeBeamGeometry.det_axes')
+M('C19', 'cone angle from the upper z bound only', 'odl/tomo/geometry/conebeam.py',
+  """        half_cone_angle = max(np.arctan(abs(space.partition.min_pt[2]) / dist),
+                              np.arctan(abs(space.partition.max_pt[2]) / dist))""",
+  """        half_cone_angle = np.arctan(abs(space.partition.max_pt[2]) / dist)""",
+  'cone_beam_geometry:h')
